@@ -22,12 +22,16 @@ PID = 'C03'
 ACCESSOR_RE = re.compile(r'::(?:\w+::)*(Sts|Mts)<[^>]*>\s+(Provides|Requires)(MultiClient)?(\w+)\(')
 
 
-def mini_model(prov, req, inj):
+def mini_model(prov, req, inj, with_mc=False):
     ports = [[n, ['I'], 'provides', False] for n in prov] + \
             [[n, ['I'], 'requires', False] for n in req] + \
             [[n, ['I'], 'requires', True] for n in inj]
-    doc = [['ns', ['N'], [['interface', 'I', [], [['Do', 'in', ['void'], []], ['Done', 'out', ['void'], []]]],
-                          ['component', 'Comp', ports]]]]
+    events = [['Do', 'in', ['void'], []], ['Done', 'out', ['void'], []]]
+    types = []
+    if with_mc:
+        types = [['enum', 'R', ['Ok', 'No']]]
+        events = [['Claim', 'in', ['R'], []], ['Release', 'in', ['void'], []]] + events
+    doc = [['ns', ['N'], [['interface', 'I', types, events], ['component', 'Comp', ports]]]]
     return {'doc': doc, 'encapsulee': ['N', 'Comp'], 'file': 'M.dzn'}
 
 
@@ -45,10 +49,11 @@ def lib_side(sts, mts, ports, label):
     return 'ACCEPT', {k: ('STS' if v == RuntimeSemantics.STS else 'MTS') for k, v in res.items()}
 
 
-def lib_build(model, psel, rsel):
+def lib_build(model, psel, rsel, mc=None):
     from dznpy.adv_shell.types import AdvShellError  # pylint: disable=import-outside-toplevel
     try:
-        files = B.build(model, {'provides': psel, 'requires': rsel, 'fac': 'create'})
+        files = B.build(model, {'provides': psel, 'requires': rsel, 'fac': 'create',
+                                'mc': {'port': mc, 'claim': 'Claim', 'grant': 'Ok', 'release': 'Release'} if mc else None})
     except AdvShellError as exc:
         return 'REJECT', type(exc).__name__, None
     except Exception as exc:  # pylint: disable=broad-except
@@ -91,10 +96,19 @@ def judge(case):
     psel, rsel = case['psel'], case['rsel']
     wp = R.resolve_side('provides', psel[0], psel[1], prov, ())
     wr = R.resolve_side('requires', rsel[0], rsel[1], req, inj)
-    model = mini_model(prov, req, inj)
-    verdict, detail, nfiles = lib_build(model, psel, rsel)
+    mc = case.get('mc')
+    if mc:
+        # a multi-client port must be a provides port of the component and must end up multi-threaded; apart from
+        # that the configuration is judged exactly as without multi-client settings
+        if mc not in prov:
+            wp = ('REJECT', 'mc:not-a-provides-port')
+        elif wp[0] == 'ACCEPT' and wp[1][mc] != 'MTS':
+            wp = ('REJECT', 'mc:port-not-mts')
+    model = mini_model(prov, req, inj, bool(mc))
+    verdict, detail, nfiles = lib_build(model, psel, rsel, mc)
     desc = (f'ports provides={prov} requires={req} injected={inj}; provides(sts={psel[0]}, mts={psel[1]}) '
-            f'requires(sts={rsel[0]}, mts={rsel[1]}) -> library {verdict} {detail}; reference {wp} / {wr}')
+            f'requires(sts={rsel[0]}, mts={rsel[1]}) multi-client={mc} -> library {verdict} {detail}; '
+            f'reference {wp} / {wr}')
     if verdict == 'CRASH':
         reason = wp[1] if wp[0] == 'REJECT' else (wr[1] if wr[0] == 'REJECT' else 'valid')
         out.append((f'build-crash:{detail.split(":")[0]}:{reason}', desc))
@@ -224,6 +238,10 @@ def e2e_cases(thorough):
         for ports in R.subsets(own_p):
             for req, inj, rsel in other_req:
                 yield {'kind': 'e2e', 'prov': ports, 'req': req, 'inj': inj, 'psel': [sts, mts], 'rsel': rsel}
+            # the same with multi-client settings for one provides port (first / last own name)
+            for mc in (own_p[0], own_p[-1]):
+                req, inj, rsel = other_req[0]
+                yield {'kind': 'e2e', 'prov': ports, 'req': req, 'inj': inj, 'psel': [sts, mts], 'rsel': rsel, 'mc': mc}
     other_prov = [(own_p[:1], ['NONE', 'ALL']), (own_p[:1], ['ALL', 'NONE'])]
     for sts, mts in itertools.product(R.selections(own_r + ['u', own_p[0], 'i']), repeat=2):
         for ports in R.subsets(own_r):
@@ -287,7 +305,7 @@ def work(job):
         else:
             wp = R.resolve_side('provides', case['psel'][0], case['psel'][1], case['prov'], ())
             wr = R.resolve_side('requires', case['rsel'][0], case['rsel'][1], case['req'], case['inj'])
-            part.outcome(f'e2e:{wp[0]}/{wr[0]}')
+            part.outcome(f'e2e:{wp[0]}/{wr[0]}' + ('+mc' if case.get('mc') else ''))
             if 'EITHER' not in (wp[0], wr[0]) or 'REJECT' in (wp[0], wr[0]):
                 part.nontrivial += 1
         for key, what in res:
